@@ -219,6 +219,13 @@ pub async fn step_api(w: &mut World, op: Tok, c: &mut Cur<'_>, start: SystemTime
     let Some(p) = c.next() else { return bad };
     let perms = w.perm(p);
     let b = w.broker.clone();
+    // every second operation sends its datapoints with a client-side ("source") timestamp from the year 2001: the
+    // broker keeps it aside and must go on reporting the time at which IT received the value
+    let cts: Option<prost_types_ts::Timestamp> = if w.windows.len() % 2 == 0 {
+        Some(prost_types_ts::Timestamp { seconds: 1_000_000_000 + w.windows.len() as i64, nanos: 123_000_000 })
+    } else {
+        None
+    };
     match op {
         20 => {
             let (Some(view), Some(path)) = (c.next(), c.string()) else { return bad };
@@ -283,7 +290,7 @@ pub async fn step_api(w: &mut World, op: Tok, c: &mut Cur<'_>, start: SystemTime
                 let Some(fields) = c.next() else { return bad };
                 let (Some(v), Some(t)) = (opt_opt_value(c), opt_opt_value(c)) else { return bad };
                 let mk = |x: Option<DataValue>| p1::Datapoint {
-                    timestamp: None,
+                    timestamp: cts.clone(),
                     value: x.as_ref().and_then(v1_value),
                 };
                 let mut fl = Vec::new();
@@ -379,7 +386,7 @@ pub async fn step_api(w: &mut World, op: Tok, c: &mut Cur<'_>, start: SystemTime
         24 => {
             let (Some(s), Some(dp)) = (sig(c), opt_opt_value(c)) else { return bad };
             let data_point = dp.map(|v| p2::Datapoint {
-                timestamp: None,
+                timestamp: cts.clone(),
                 value: v.as_ref().map(v2_value),
             });
             match p2::val_server::Val::publish_value(&b, req(p2::PublishValueRequest { signal_id: s, data_point }, Some(&perms))).await {
@@ -474,7 +481,7 @@ pub async fn step_api(w: &mut World, op: Tok, c: &mut Cur<'_>, start: SystemTime
             for _ in 0..n {
                 let (Some(name), Some(v)) = (c.string(), c.opt_value()) else { return bad };
                 names.push(name.clone());
-                dps.insert(name, ps::Datapoint { timestamp: None, value: v.as_ref().and_then(sdv_value) });
+                dps.insert(name, ps::Datapoint { timestamp: cts.clone(), value: v.as_ref().and_then(sdv_value) });
             }
             match ps::broker_server::Broker::set_datapoints(&b, req(ps::SetDatapointsRequest { datapoints: dps }, Some(&perms))).await {
                 Err(s) => status(&s),
@@ -504,7 +511,7 @@ pub async fn step_api(w: &mut World, op: Tok, c: &mut Cur<'_>, start: SystemTime
             let mut dps = HashMap::new();
             for _ in 0..n {
                 let (Some(id), Some(v)) = (c.next(), c.opt_value()) else { return bad };
-                dps.insert(id as i32, ps::Datapoint { timestamp: None, value: v.as_ref().and_then(sdv_value) });
+                dps.insert(id as i32, ps::Datapoint { timestamp: cts.clone(), value: v.as_ref().and_then(sdv_value) });
             }
             match ps::collector_server::Collector::update_datapoints(&b, req(ps::UpdateDatapointsRequest { datapoints: dps }, Some(&perms))).await {
                 Err(s) => status(&s),
